@@ -131,7 +131,10 @@ var props = map[string]propSpec{
 	}},
 	"C02": {Level: "exploration", Harnesses: []harnessSpec{
 		{Name: "bbox", NoRewrite: true, Quick: 240, Thorough: 2400, Args: []string{"-prop", "C02"}},
+		{Name: "agentw", Quick: 60, Thorough: 600, Args: []string{"-prop", "C02"}},
+		{Name: "joined", Quick: 90, Thorough: 900, Args: []string{"-prop", "C02"}},
 	}, Assume: []string{
+		"although schedules are not in this property's quantifier, requests with bodies are also sent concurrently through the agent program (harness agentw) and through proxy + agent joined in one process (harness joined) under delay-bounded schedules: the backend must see each request's own method, target and body",
 		"the real proxy and agent binaries built from the current tree, as processes on loopback; credentials from a fake metadata server; the backend is a strict raw-socket HTTP/1.1 server that records what it receives",
 		"hop-by-hop = the fixed RFC 7230 table (Connection, Keep-Alive, Proxy-Authenticate, Proxy-Authorization, TE, Trailer, Transfer-Encoding, Upgrade); fields merely nominated by the client's Connection header are not judged; OPTIONS * is answered by net/http before any handler and is not a request through the proxy",
 		"schedules are not in this property's quantifier: outcomes are schedule-independent when the property holds",
